@@ -18,7 +18,7 @@ import (
 )
 
 func init() {
-	register("C20", "sessions with a capturing logging.Logger at all four levels: random printable passwords (8-32 bytes, also ones beginning with PASS, containing spaces, colons, %-verbs) x negotiation on/off x tracking on/off x {normal session with traffic, server closes at once, dial error, TLS handshake failure, the 1st..4th write failing (so the failure lands on CAP LS / PASS / NICK / USER)}; no record (format, any argument, or the rendered text) may contain the password (Spec.Register.occurs, evaluated by the driver), twin runs with same-length passwords must log identically, and the text logged for each outgoing line is compared with the model's logOf; non-trivial = session logged the masked PASS line; distinct by (password, scenario)", c20)
+	register("C20", "sessions with a capturing logging.Logger at all four levels: random printable passwords (8-32 bytes, also ones beginning with PASS, containing spaces, colons, %-verbs) x negotiation on/off x tracking on/off x {normal session with traffic, server closes at once, dial error, TLS handshake failure, the 1st..4th write failing (so the failure lands on CAP LS / PASS / NICK / USER), flood protection on with a reconnect right after a burst (the PASS line is held back by rate limiting)}; no record (format, any argument, or the rendered text) may contain the password (Spec.Register.occurs, evaluated by the driver), twin runs with same-length passwords must log identically, and the text logged for each outgoing line is compared with the model's logOf; non-trivial = session logged the masked PASS line; distinct by (password, scenario)", c20)
 }
 
 type capLogger struct {
@@ -120,6 +120,28 @@ func c20Session(pass string, capNeg, track bool, scenario int) (*capLogger, []st
 			}
 			wire = sc.Lines()
 		}
+	case 8: // flood protection on, reconnect right after a burst: the PASS line of the second session is rate-limited
+		url, conns := memconn.Listen()
+		cfg := client.NewConfig("me")
+		cfg.Server, cfg.Proxy, cfg.PingFreq = "irc.test", url, 0
+		mod(cfg)
+		cfg.Flood = false
+		conn := client.Client(cfg)
+		pre(conn)
+		if conn.Connect() == nil {
+			sc := <-conns
+			for i := 0; i < 4; i++ {
+				conn.Raw("PRIVMSG #c :burst")
+			}
+			sc.WaitLines(6, 8*time.Second)
+			conn.Close()
+			if conn.Connect() == nil {
+				sc2 := <-conns
+				sc2.WaitLines(2, 12*time.Second)
+				wire = sc2.Lines()
+				conn.Close()
+			}
+		}
 	case 2: // dial error
 		url, _ := memconn.Listen()
 		memconn.FailDial(url, errors.New("connection refused"))
@@ -169,6 +191,9 @@ func c20(c *Ctx) {
 		capNeg, track, scenario := c.R.Bool(), c.R.Bool(), c.R.N(8)
 		if c.R.P(1, 3) {
 			scenario = 0
+		}
+		if i == 0 {
+			scenario = 8 // once per run: takes a few seconds of real rate limiting
 		}
 		lg, wire := c20Session(pass, capNeg, track, scenario)
 		desc := fmt.Sprintf("session scenario=%d capneg=%v tracking=%v password=%q", scenario, capNeg, track, pass)
